@@ -7,6 +7,7 @@ package lexer
 // precomposed U+09DF, which NFC would decompose.
 
 import (
+	"strconv"
 	"unicode"
 
 	"github.com/ah-naf/borno/token"
@@ -428,5 +429,34 @@ func VH_translitN(n int) {
 		for i := 0; i < n; i++ {
 			verifAssert("translitN-value", out[i] == sDigitValue(src[i]))
 		}
+	}
+}
+
+// VH_number (C10): the value of a numeric literal is strconv.ParseFloat applied to the
+// transliterated lexeme — never an infinite value smuggled into a token, never a literal
+// computed from anything else.
+func VH_number(n int) {
+	src := make([]rune, n)
+	for i := 0; i < n; i++ {
+		src[i] = verifNondetRune()
+	}
+	end, tok, ty, _, _, _ := specLex(src, 0)
+	verifAssume(tok && ty == token.NUMBER)
+	utils.HadError = false
+	s := NewScanner(src)
+	s.scanToken()
+	ascii := make([]rune, end)
+	for i := 0; i < end; i++ {
+		ascii[i] = sDigitValue(src[i])
+	}
+	want, err := strconv.ParseFloat(string(ascii), 64)
+	if err != nil {
+		verifAssert("literal-out-of-range-is-rejected", len(s.tokens) == 0 && utils.HadError)
+		return
+	}
+	verifAssert("literal-in-range-is-a-token", len(s.tokens) == 1 && !utils.HadError)
+	if len(s.tokens) == 1 {
+		v, isF := s.tokens[0].Literal.(float64)
+		verifAssert("literal-value-is-parsefloat-of-transliterated-lexeme", isF && (v == want || (v != v && want != want)))
 	}
 }
